@@ -368,7 +368,7 @@ def mechanism_call(spec, fresh=True):
         bounded = spec['bounded']
         unit = 'eps' if spec['noise'] == 'laplace' else 'rho'
         return (lambda d: mod.mwem_pgm(d, eps, delta if unit == 'rho' else 0.0, rounds=spec['rounds'], pgm_iters=ITER_CAP, noise=spec['noise'],
-                                       bounded=bounded, alpha=spec['alpha'])), bounded, unit
+                                       bounded=bounded, alpha=spec['alpha'], **({'workload': [tuple(c) for c in spec['workload']]} if 'workload' in spec else {}))), bounded, unit
     if mech == 'adagrid':
         mod = mechload.load('adaptive_grid')
         return (lambda d: mod.adagrid(d, eps, delta, spec['threshold'], targets=list(spec['targets']), split_strategy=spec['split'], iters=ITER_CAP)), False, 'rho'
